@@ -358,7 +358,7 @@ def run(ctx):
     def flush():
         outs = drv.run([lean_line(prog, q) for (_, prog, q, _) in pending])
         for (family, prog, q, sld), out in zip(pending, outs):
-            if time.time() - ctx.t0 > ctx.budget(75, 700):
+            if time.time() - ctx.t_work > ctx.budget(75, 700):
                 ctx.count("%s:not-run-wall-clock-cap" % family)
                 continue
             process(family, prog, q, sld, parse_lean(out))
@@ -465,7 +465,7 @@ def run(ctx):
         touts = drv.run(["bottomup 400 60 %s" % U.sx_program(prog) for prog, _, _ in tcases])
         text = ""
         for (prog, queries, model), out in zip(tcases, touts):
-            if time.time() - ctx.t0 > ctx.budget(90, 900):
+            if time.time() - ctx.t_work > ctx.budget(90, 900):
                 ctx.count("tabled:not-run-wall-clock-cap")
                 continue
             text = U.pl_program(prog)
